@@ -404,7 +404,7 @@ pub struct MsgResult {
 }
 
 /// Execute a message (list of units) on the device; decode the response per query unit.
-pub fn run_msg(d: &mut Dev, units: &[Value], mav: bool, style: u64, rotk: u32) -> MsgResult {
+pub fn render_msg(units: &[Value], style: u64, rotk: u32) -> String {
     let mut text = String::new();
     for (i, u) in units.iter().enumerate() {
         let t = render_unit(u, style.wrapping_add(i as u64 * 7), rotk);
@@ -421,6 +421,12 @@ pub fn run_msg(d: &mut Dev, units: &[Value], mav: bool, style: u64, rotk: u32) -
     if style % 3 == 1 {
         text.push('\n');
     }
+    text
+}
+
+/// Execute a message (list of units) on the device; decode the response per query unit.
+pub fn run_msg(d: &mut Dev, units: &[Value], mav: bool, style: u64, rotk: u32) -> MsgResult {
+    let text = render_msg(units, style, rotk);
     let mut ctx = Context::default();
     ctx.mav = mav;
     let mut buf: Vec<u8> = Vec::new();
@@ -446,6 +452,33 @@ pub fn run_msg(d: &mut Dev, units: &[Value], mav: bool, style: u64, rotk: u32) -
         }
     }
     MsgResult { ret, resps: Value::Array(resps), raw: buf, text, hook_calls: d.hook_calls }
+}
+
+/// The same message on a fixed-capacity response buffer (C11 for the mandated commands):
+/// returns (error code or 0, bytes written).
+fn run_arr<const N: usize>(d: &mut Dev, text: &str, mav: bool) -> (i64, Vec<u8>) {
+    let mut ctx = Context::default();
+    ctx.mav = mav;
+    let mut buf = arrayvec::ArrayVec::<u8, N>::new();
+    let res = TREE.run(text.as_bytes(), d, &mut ctx, &mut buf);
+    (res.err().map(|e| e.get_code() as i64).unwrap_or(0), buf.to_vec())
+}
+
+macro_rules! cap_dispatch {
+    ($cap:expr, $d:expr, $text:expr, $mav:expr; $($n:literal)*) => {
+        match $cap {
+            $($n => Some(run_arr::<$n>($d, $text, $mav)),)*
+            _ => None,
+        }
+    };
+}
+
+pub fn run_msg_cap(d: &mut Dev, text: &str, mav: bool, cap: usize) -> Option<(i64, Vec<u8>)> {
+    cap_dispatch!(cap, d, text, mav;
+        0 1 2 3 4 5 6 7 8 9 10 11 12 13 14 15 16 17 18 19 20 21 22 23 24 25 26 27 28 29 30 31 32
+        33 34 35 36 37 38 39 40 41 42 43 44 45 46 47 48 49 50 51 52 53 54 55 56 57 58 59 60 61 62 63 64
+        65 66 67 68 69 70 71 72 73 74 75 76 77 78 79 80 81 82 83 84 85 86 87 88 89 90 91 92 93 94 95 96
+        97 98 99 100 101 102 103 104 105 106 107 108 109 110 111 112 113 114 115 116 117 118 119 120 121 122 123 124 125 126 127 128)
 }
 
 pub fn dev_op(d: &mut Dev, u: &Value, rotk: u32) {
@@ -597,6 +630,33 @@ pub fn record_trace(args: &[String]) -> i32 {
             }
             let mav = rng.chance(1, 2);
             let style = rng.next();
+            // C11 for the mandated commands: the same message from the same state on fixed-capacity buffers
+            if rng.chance(1, 4) {
+                let text = render_msg(&units, style, 0);
+                let mut dv = d.snapshot();
+                let refr = catch(std::panic::AssertUnwindSafe(|| {
+                    let m = run_msg(&mut dv, &units, mav, style, 0);
+                    (m.ret["code"].as_i64().unwrap(), m.raw, project(&dv, 0))
+                }));
+                if let Ok((rcode, rbytes, rpost)) = refr {
+                    let len = rbytes.len();
+                    if rcode == 0 && len > 0 && len <= 126 {
+                        for cap in [len - 1, len, len + 1, rng.below(len as u64) as usize, rng.below(len as u64) as usize] {
+                            let mut dc = d.snapshot();
+                            let r = catch(std::panic::AssertUnwindSafe(|| {
+                                let x = run_msg_cap(&mut dc, &text, mav, cap);
+                                (x, project(&dc, 0))
+                            }));
+                            match r {
+                                Err(p) => out.put(&json!({"ev": "panic", "msg": p, "units": units, "cap": cap})),
+                                Ok((Some((code, bytes)), post)) => out.put(&json!({"ev": "cap", "cap": cap, "len": len, "code": code,
+                                    "same": bytes == rbytes && post == rpost, "within": bytes.len() <= cap, "text": text})),
+                                Ok((None, _)) => {}
+                            }
+                        }
+                    }
+                }
+            }
             let mut d2 = d.snapshot();
             let res = catch(std::panic::AssertUnwindSafe(|| {
                 let m = run_msg(&mut d2, &units, mav, style, 0);
